@@ -302,8 +302,9 @@ def _classify(node, var, sorted_helpers=()):
         if isinstance(c.func, ast.Attribute) and pyfront.dotted(c.func.value) == var:
             if c.func.attr == "sort":
                 kind = "sort" if pyfront.kwarg(c, "reverse") is None else "mut"
-            elif c.func.attr in ("append", "extend", "insert", "reverse", "pop", "remove"):
+            elif c.func.attr in ("append", "extend", "insert", "reverse"):
                 kind = "mut"
+            # pop / remove / clear take elements away: a sorted list stays sorted
     if isinstance(a, ast.Assign) and any(isinstance(t, ast.Name) and t.id == var for t in a.targets):
         v = a.value
         if isinstance(v, ast.Call) and pyfront.call_name(v) == "sorted" and pyfront.kwarg(v, "reverse") is None:
@@ -311,6 +312,12 @@ def _classify(node, var, sorted_helpers=()):
         elif isinstance(v, ast.Call) and pyfront.call_name(v) in sorted_helpers and any(
                 isinstance(x, ast.Name) and x.id == var for x in v.args):
             kind = None  # helper returns its (sorted) argument unchanged or a freshly sorted list: state preserved
+        elif isinstance(v, ast.Subscript) and isinstance(v.value, ast.Name) and v.value.id == var and isinstance(v.slice, ast.Slice) \
+                and (v.slice.step is None or (isinstance(pyfront.const(v.slice.step), int) and pyfront.const(v.slice.step) > 0)):
+            kind = None  # a forward slice of the sorted list is sorted
+        elif isinstance(v, ast.Call) and pyfront.call_name(v) in ("list", "tuple") and len(v.args) == 1 \
+                and isinstance(v.args[0], ast.Name) and v.args[0].id == var:
+            kind = None  # a copy
         else:
             kind = "mut"
     if isinstance(a, ast.Assign) and any(isinstance(t, (ast.Tuple, ast.List)) and any(
@@ -718,7 +725,7 @@ def r6_reverse_changes_only_the_order(repo=None):
             env_r = dict(pre[True], **[env for x, env in per_mode[True][1] if x == el][0])
             rf = pyorder.residual(e2, env_f, FLAG, False)
             rr = pyorder.residual(e2, env_r, FLAG, True)
-            if rf != rr and direct:
+            if rf != rr and direct and what == "condition":
                 # mentions the flag itself and does not cancel out: may be an order switch with an extra condition - not decided
                 raise AnalysisError("%s: %s `%s` depends on `reverse` directly; not recognised as an order switch"
                                     % (q, what, norm(ast.unparse(e))[:80]))
